@@ -116,6 +116,17 @@ def _check_digest(res, fp, text, name):
                           {"kind": "digest", "text": text, "name": name}))
 
 
+def _kw(fp):
+    """The same function called with keyword arguments (parameter names taken from its signature)."""
+    import inspect
+
+    try:
+        names_ = list(inspect.signature(fp).parameters)[:2]
+    except (TypeError, ValueError):
+        return fp
+    return lambda text, name: fp(**{names_[0]: text, names_[1]: name})
+
+
 def _check_unknown(res, fp, text, name):
     note_case((text, name))
     res.evals += 1
@@ -208,6 +219,17 @@ def run_unit(unit, tier):
         res.sample({"text": "é€", "algorithm": "SHA-256"})
     elif kind == "unknown":
         import fastavro._schema_common as sc
+
+        # every public attribute name of hashlib that is not an advertised algorithm is an unknown algorithm name too
+        for name in sorted(n for n in dir(hashlib) if n not in sc.FINGERPRINT_ALGORITHMS):
+            _check_unknown(res, fp, '"int"', name)
+        # keyword calls behave like positional ones
+        fpk = _kw(fp)
+        for t in ("", '"int"', "é" * 40):
+            _check_crc(res, fpk, t, idxs)
+            for name in ("MD5", "SHA-256", "sha1", "sha3_256", "blake2b"):
+                _check_digest(res, fpk, t, name)
+            _check_unknown(res, fpk, t, "nope")
 
         for name in UNKNOWN + [n.upper() for n in _fixed_algos() if n.upper() not in ("MD5",)] + ["sm3x", "blake3"]:
             if name in hashlib.algorithms_guaranteed or name in ("MD5", "SHA-256", "CRC-64-AVRO"):
